@@ -150,5 +150,5 @@ def make_harness(case, tier):
 
 
 def run_case(case, tier):
-    ctx = explore.explore(make_harness(case, tier), max_paths=40000, time_budget_s=500)
+    ctx = explore.explore(make_harness(case, tier), max_paths=(40000 if tier == 'quick' else 1600000), time_budget_s=(500 if tier == 'quick' else 3600))
     return driver.result_from_ctx(ctx)
